@@ -124,7 +124,7 @@ class LifeSystem:
                 out.append(("raw" if self.api == "m" else "rstr", i))
                 out.append(("reset", i))
                 continue
-            for l in self.L:
+            for l in self.L + ((5 * self.B + 1,) if not self.graph else ()):
                 if self.graph and len(data) + l > self.max_bytes:
                     continue
                 out.append(("in", i, l))
